@@ -10,6 +10,7 @@ import (
 	"sync"
 	"time"
 
+	"github.com/PowerDNS/lightningstream/lmdbenv/header"
 	"github.com/PowerDNS/lightningstream/snapshot"
 	"github.com/PowerDNS/lightningstream/syncer"
 	"github.com/PowerDNS/lightningstream/syncer/events"
@@ -31,6 +32,7 @@ type loopStore struct {
 	failStores int
 	failLists  int
 	stores     int
+	lists      int
 }
 
 var errInjected = errors.New("injected storage failure")
@@ -55,6 +57,7 @@ func (f *loopStore) List(ctx context.Context, prefix string) (simpleblob.BlobLis
 		f.mu.Unlock()
 		return nil, errInjected
 	}
+	f.lists++
 	f.mu.Unlock()
 	return f.Interface.List(ctx, prefix)
 }
@@ -75,6 +78,8 @@ type loopInst struct {
 	delivery  string // observed in the current segment: "inst@symts"
 	ownAtStart bool  // snapshots under this instance's own name existed when the loop started
 	cfgArgs   []string
+	bgListed  bool
+	lsTxnID   uint64 // id Lightning Stream's latest own transaction was opened with
 	echo      bool // a Store without a preceding application change or start-up (C10)
 }
 
@@ -155,7 +160,7 @@ func mkLoop(id string, a []string, env0 *loopInst) *loopInst {
 	c.OnlyOnce = once
 	c.StorageRetryCount = int(u64(a[6]))
 	c.StoragePollInterval = time.Hour // the harness triggers listings itself
-	c.LMDBPollInterval = 100 * time.Millisecond
+	c.LMDBPollInterval = 50 * time.Microsecond
 	ev := events.New()
 	hk := hooks.New()
 	s, err := syncer.New("db", l.env, l.st, c, lc, syncer.Options{ReceiveOnly: ro, Events: ev, Hooks: hk})
@@ -220,6 +225,14 @@ func init() {
 		}
 		l.yieldCh <- point
 		<-l.releaseCh
+	}
+	syncer.VerifNoteTxn = func(s *syncer.Syncer, txnID header.TxnID) {
+		loopMu.Lock()
+		l := loopBySync[s]
+		loopMu.Unlock()
+		if l != nil {
+			l.lsTxnID = uint64(txnID)
+		}
 	}
 	syncer.VerifLoadBegin = func(s *syncer.Syncer, instance string, u *snapshot.Update) {
 		loopMu.Lock()
@@ -344,14 +357,37 @@ func init() {
 			w.end()
 			return "err hang"
 		}
+		if l.at == "loop.top" && !l.bgListed {
+			// the receiver's own goroutine lists the bucket once when it is started (just before the
+			// first loop.top): wait for that listing so that it happens at a fixed point of the schedule
+			deadline := time.Now().Add(time.Second)
+			for time.Now().Before(deadline) {
+				l.fs.mu.Lock()
+				n := l.fs.lists
+				l.fs.mu.Unlock()
+				if n >= 2 {
+					break
+				}
+				time.Sleep(50 * time.Microsecond)
+			}
+			time.Sleep(200 * time.Microsecond)
+			waitIdle(l)
+			l.bgListed = true
+		}
 		w.end()
-		t.lsEmpty = lastTxnID(l.env) == t.txnAtRelease
+		// was Lightning Stream's transaction that ended at this yield point left unrecorded by LMDB?
+		t.lsEmpty = (l.at == "load.afterTxn" || l.at == "send.afterTxn") && uint64(lastTxnID(l.env)) < l.lsTxnID
+		if l.at == "send.afterTxn" {
+			// the dump is done: application commits from here on are not in this snapshot
+			t.coveredBySend = t.appSinceStore
+			t.appSinceStore = false
+		}
 		if l.at == "send.stored" {
 			t.stores++
-			if !t.appSinceStore && !t.startupStore {
+			if !t.coveredBySend && !t.startupStore {
 				l.echo = true
 			}
-			t.appSinceStore = false
+			t.coveredBySend = false
 			t.startupStore = false
 		}
 		next := "-"
